@@ -38,8 +38,19 @@ func ruleC10Phase(p *Prog, r *Result) {
 					if i2 < 0 {
 						i2 = i
 					}
-					docs := mResOf(0, mCall("bkl.repeatDoc"))
-					ecs := mResOf(1, mCall("bkl.repeatDoc"))
+					// what the expansion returned: its results, or the fields of a struct it returns them in (the
+					// document and context parameters of process2 have different types, so the lists cannot be confused)
+					var fromRepeat TM
+					fromRepeat = func(t *T) bool {
+						if t == nil {
+							return false
+						}
+						if t.Op == "res" && len(t.Args) == 1 && mCall("bkl.repeatDoc")(t.Args[0]) {
+							return true
+						}
+						return t.Op == "field" && len(t.Args) == 1 && fromRepeat(t.Args[0])
+					}
+					docs, ecs := fromRepeat, fromRepeat
 					if !(e.Args[0].Op == "field" && mElemOf(docs)(e.Args[0].Args[0])) || !mElemOf(docs)(e.Args[1]) {
 						return false, "phase 2 does not run on each expanded document"
 					}
